@@ -1,12 +1,14 @@
 package props
 
 import (
+	"context"
 	"fmt"
 	"os"
 	"os/exec"
 	"sort"
 	"strings"
 	"sync"
+	"time"
 
 	"verifmc/engine"
 	"verifmc/sched"
@@ -637,6 +639,8 @@ func c14FreeRun(bodies []func()) {
 	wg.Wait()
 }
 
+var c14RaceTimedOut bool
+
 func c14Race(t *engine.T, only string) {
 	bin := os.Getenv("VERIF_RACE_BIN")
 	reps := 30
@@ -650,10 +654,24 @@ func c14Race(t *engine.T, only string) {
 				if bin == "" {
 					return "", engine.Failf("harness", "VERIF_RACE_BIN not set (bin/check builds the -race variant for C14)")
 				}
-				cmd := exec.Command(bin, "--race-scenario", name, fmt.Sprint(g), fmt.Sprint(reps))
+				if c14RaceTimedOut {
+					return "skipped-after-timeout", nil // this scenario already hung once; do not wait again
+				}
+				// The free-running pass has no scheduler that could see a deadlock, so a generous
+				// watchdog stands in for it (a scenario normally takes 1-3 s; the limit is 120 s).
+				cctx, cancel := context.WithTimeout(context.Background(), 120*time.Second)
+				cmd := exec.CommandContext(cctx, bin, "--race-scenario", name, fmt.Sprint(g), fmt.Sprint(reps))
 				cmd.Env = append(os.Environ(), "GORACE=halt_on_error=0")
 				outb, err := cmd.CombinedOutput()
+				timedOut := cctx.Err() != nil
+				cancel()
 				out := string(outb)
+				if timedOut {
+					c14RaceTimedOut = true
+					f := engine.Failf("deadlock", "free-running scenario did not finish within 120 s (normally 1-3 s): deadlock or livelock between goroutines")
+					f.Loose = true
+					return "", f
+				}
 				t.Count("free_running_executions", int64(reps))
 				if strings.Contains(out, "WARNING: DATA RACE") {
 					f := engine.Failf("data-race", "race detector report: %s", c14RaceSummary(out))
